@@ -99,9 +99,10 @@ def run(ctx):
                 sig = "hang:" + classify(h["reset"], "Hang")
                 if sig not in seen_sig:
                     seen_sig[sig] = 1
-                    ctx.violation(sig, "response never completed although the application finished, the event loop is idle and the socket is "
-                                  "writable (Complete): %s" % brief(h["reset"]), h["path"])
-            else:
+                    if len(seen_sig) <= 12:
+                        ctx.violation(sig, "response never completed although the application finished, the event loop is idle and the socket is "
+                                      "writable (Complete): %s" % brief(h["reset"]), save_replay(ctx, h, len(seen_sig)))
+            elif len(ctx.undecided) < 20:
                 ctx.undecided.append("harness timeout (not judged): %s" % brief(h["reset"]))
         for x in r["rejects"]:
             nrej += 1
@@ -170,10 +171,7 @@ def validate(ctx, trace, shard, lock):
         elif ln.startswith('{"e":"Hang"'):
             ev = json.loads(ln)
             s = start_of[-1]
-            rp = os.path.join(ctx.replays, "hang-%d-%d-%d.ndjson" % (int(ctx.t0), shard, len(res["hangs"])))
-            with open(rp, "w") as f:
-                f.write("\n".join(lines[s:i + 1]) + "\n")
-            res["hangs"].append({"reset": cur, "done": ev.get("done", False), "idle": ev.get("idle", False), "path": rp})
+            res["hangs"].append({"reset": cur, "done": ev.get("done", False), "idle": ev.get("idle", False), "lines": lines[s:i + 1]})
     # one TLC run judges the whole file: an event that is not a step of Out is flagged and the execution skipped
     r, k, flags = tlc_once(ctx, trace)
     if k is None or k < len(lines):
